@@ -392,6 +392,13 @@ pub fn generate(thorough: bool, seed: u64, out: &mut dyn Write) {
     for l in big {
         writeln!(out, "{}", l).unwrap();
     }
+    // where an index entry points (dat id, offsets over the whole 35-bit range incl. >= 4 GiB, which
+    // no materialised dat file reaches): every sheet file is located through such an entry — C01's
+    // direct `SqPackIndex::find_entry` cases, shared (own random stream)
+    let mut rng_idx = Rng::new(seed, "C05-idx");
+    for _ in 0..(if thorough { 1000 } else { 60 }) {
+        crate::c01::gen_idx(&mut rng_idx, out);
+    }
 }
 
 // ------------------------------------------------------------------------------------------------
@@ -759,6 +766,9 @@ fn language(code: u8) -> Option<Language> {
 }
 
 pub fn run(case: &str, input: &str) -> String {
+    if case.starts_with("idx ") {
+        return crate::c01::run(case, input);
+    }
     let f: Vec<&str> = input.split(' ').collect();
     match f[0] {
         "row" if f.len() == 4 => {
